@@ -161,6 +161,8 @@ def fanout(ctx: Ctx, module: str, func: str, args: list, nproc: int = 16, timeou
     """Run ``module.func(child_ctx, arg)`` in child interpreters, at most nproc at once; merge the results.
 
     A child that dies or times out makes the run inconclusive (its partial observations are lost)."""
+    # the watchdog only guards against a real hang (its firing is 'inconclusive'): generous, so that a loaded machine does not trip it
+    timeout = timeout * float(os.environ.get('VERIF_WATCHDOG_FACTOR', '4' if ctx.tier == 'thorough' else '2'))
     pending = list(enumerate(args))
     running: list[tuple] = []
     tmpdir = tempfile.mkdtemp(prefix='vf_fan_', dir=os.environ.get('VERIF_TMP', None))
